@@ -112,10 +112,13 @@ func init() {
 					v.ID = id
 					id++
 					v.Family = "faultenum"
-					v.Steps = cloneSteps(base.Steps)
+					// The history ends with the faulted step: its observation
+					// (results, cookies, every persistence call, cache, store,
+					// the handler's session) shows what the fault left behind.
+					// States after a reported failure are outside the
+					// properties' quantifiers and are not explored further.
+					v.Steps = cloneSteps(base.Steps[:s+1])
 					v.Steps[s].Plan = p
-					// two more requests of every client afterwards show what
-					// state the fault left behind
 					variants = append(variants, v)
 				}
 			}
